@@ -39,3 +39,13 @@ Qed.
 
 Lemma go_len_app {A} (a b : list A) : go_len (a ++ b) = go_len a + go_len b.
 Proof. unfold go_len. rewrite app_length. lia. Qed.
+
+(* the same with the bounds as numerals (lia does not evaluate powers) *)
+Lemma wrapS8_id z : -128 <= z <= 127 -> wrapS 8 z = z.
+Proof. intros H. apply wrapS_id; [lia|]. change (2 ^ (8 - 1)) with 128. lia. Qed.
+Lemma wrapS16_id z : -32768 <= z <= 32767 -> wrapS 16 z = z.
+Proof. intros H. apply wrapS_id; [lia|]. change (2 ^ (16 - 1)) with 32768. lia. Qed.
+Lemma wrapS32_id z : -2147483648 <= z <= 2147483647 -> wrapS 32 z = z.
+Proof. intros H. apply wrapS_id; [lia|]. change (2 ^ (32 - 1)) with 2147483648. lia. Qed.
+Lemma wrapS64_id z : -9223372036854775808 <= z <= 9223372036854775807 -> wrapS 64 z = z.
+Proof. intros H. apply wrapS_id; [lia|]. change (2 ^ (64 - 1)) with 9223372036854775808. lia. Qed.
